@@ -107,9 +107,7 @@ pub fn eval_self<P: PType>(st: &PState<PrefixMap<P, u32>>, uni: &Universe, cnt: 
                                 let want: Vec<(GK, Option<u32>, Option<u32>)> = exp.iter().map(|e| (e.key, e.l.map(|o| o.2), e.r.map(|o| o.2))).collect();
                                 let mut held: Vec<(GK, Option<&mut u32>, Option<&mut u32>)> = vi.union_mut(vj).take(lim).map(|(p, l, r)| (norm(p.raw()), l, r)).collect();
                                 let got: Vec<(GK, Option<u32>, Option<u32>)> = held.iter().map(|(k, l, r)| (*k, l.as_deref().copied(), r.as_deref().copied())).collect();
-                                if got != want {
-                                    out.push((Viol::new("C05", "TrieViewMut::union_mut", "yield-sequence", format!("union_mut yields {:x?}, expected {:x?}", got, want)), what.clone()));
-                                } else {
+                                {
                                     let mut addrs: Vec<usize> = held.iter().flat_map(|x| [x.1.as_deref().map(|v| v as *const u32 as usize), x.2.as_deref().map(|v| v as *const u32 as usize)]).flatten().collect();
                                     let n = addrs.len();
                                     addrs.sort();
@@ -117,6 +115,10 @@ pub fn eval_self<P: PType>(st: &PState<PrefixMap<P, u32>>, uni: &Universe, cnt: 
                                     if addrs.len() != n {
                                         out.push((Viol::new("C14", "TrieViewMut::union_mut", "aliasing-mutable-references", format!("{n} references, {} distinct", addrs.len())), what.clone()));
                                     }
+                                }
+                                if got != want {
+                                    out.push((Viol::new("C05", "TrieViewMut::union_mut", "yield-sequence", format!("union_mut yields {:x?}, expected {:x?}", got, want)), what.clone()));
+                                } else {
                                     for (k, l, r) in held.iter_mut() {
                                         for x in [l, r].into_iter().flatten() {
                                             tok += 1;
